@@ -36,7 +36,16 @@
 (*                     rounds = N - rejected-without-simulation            *)
 (*   RoundsAligned     every likelihood evaluation sees exactly NB batches *)
 (*                     all simulated at the proposal of that step          *)
-(* Negative controls: Gate = FALSE refutes RoundsAligned (a batch of the   *)
+(*   PosteriorOfCurrent the posterior that enters the "current" side of    *)
+(*                     every MH ratio is likelihood + prior OF THE CURRENT *)
+(*                     CHAIN STATE.  state['logprior'] (lp) is a slot      *)
+(*                     array like params; with a misspecification-adjusted *)
+(*                     likelihood every pass of the _init_round loop       *)
+(*                     recomputes logposterior[n-1] = ll + logprior[n-1],  *)
+(*                     so a slot filled by a rejection must carry the      *)
+(*                     previous slot's log-prior (CopyLp).                 *)
+(* Negative controls: CopyLp = FALSE with Misspec = TRUE refutes           *)
+(* PosteriorOfCurrent;  Gate = FALSE refutes RoundsAligned (a batch of the   *)
 (* next round is prepared from the previous proposal); TestFirst = FALSE   *)
 (* (simulate, then let the zero prior reject) refutes NoSimForRejected.    *)
 (***************************************************************************)
@@ -46,7 +55,9 @@ CONSTANTS N,           \* requested chain length (n_samples, burn-in included)
           NB,          \* batches per round = n_sim_round / batch_size
           MaxPar,      \* max_parallel_batches
           Gate,        \* TRUE: ModelBased._allow_submit as coded
-          TestFirst    \* TRUE: _init_round tests the prior before simulating (as coded)
+          TestFirst,   \* TRUE: _init_round tests the prior before simulating (as coded)
+          Misspec,     \* TRUE: robust likelihood: the loop recomputes logposterior[n-1] from logprior[n-1]
+          CopyLp       \* TRUE: the rejecting branch copies logprior[n-1] to slot n (as coded)
 
 VARIABLES pc,          \* "submit" | "wait" | "done"
           next,        \* BatchHandler._next_batch_index
@@ -61,8 +72,11 @@ VARIABLES pc,          \* "submit" | "wait" | "done"
           oos,         \* history: ids of proposals outside the prior support
           simAt,       \* history: ids some batch was simulated at
           liks,        \* history: likelihood evaluations [n, rows]
+          lp,          \* 0..N-1 -> id whose prior density is stored in state['logprior'] (0 = the initial zeros)
+          pp,          \* 0..N-1 -> id whose prior density is inside state['logposterior'] (0 = none)
+          used,        \* history: per MH ratio [n, prior (id inside the current side's posterior), cur (id of chain[n-1])]
           nextId
-vars == <<pc, next, pending, nCons, round, objRound, nS, rows, chain, prop, oos, simAt, liks, nextId>>
+vars == <<pc, next, pending, nCons, round, objRound, nS, rows, chain, prop, oos, simAt, liks, lp, pp, used, nextId>>
 
 Obj == objRound * NB                          \* set_objective: n_batches = rounds * (n_sim_round / batch_size)
 Finished == Obj <= nCons
@@ -76,18 +90,20 @@ Init == /\ pc = "submit" /\ next = 0 /\ pending = <<>> /\ nCons = 0 /\ round = 0
         /\ nS = 0 /\ rows = <<>>
         /\ chain = [i \in 0..(N - 1) |-> IF i = 0 THEN 1 ELSE 0]
         /\ prop = [i \in 0..(N - 1) |-> IF i = 0 THEN 1 ELSE 0]
+        /\ lp = [i \in 0..(N - 1) |-> IF i = 0 THEN 1 ELSE 0]
+        /\ pp = [i \in 0..(N - 1) |-> 0] /\ used = <<>>
         /\ oos = {} /\ simAt = {} /\ liks = <<>> /\ nextId = 2
 
 Submit ==
   /\ pc = "submit" /\ ~Finished /\ Allowed /\ nS < N
   /\ pending' = Append(pending, [index |-> next, val |-> chain[nS]])
   /\ next' = next + 1
-  /\ UNCHANGED <<pc, nCons, round, objRound, nS, rows, chain, prop, oos, simAt, liks, nextId>>
+  /\ UNCHANGED <<pc, nCons, round, objRound, nS, rows, chain, prop, oos, simAt, liks, lp, pp, used, nextId>>
 
 GoWait ==
   /\ pc = "submit" /\ ~Finished /\ pending # <<>>
   /\ pc' = "wait"
-  /\ UNCHANGED <<next, pending, nCons, round, objRound, nS, rows, chain, prop, oos, simAt, liks, nextId>>
+  /\ UNCHANGED <<next, pending, nCons, round, objRound, nS, rows, chain, prop, oos, simAt, liks, lp, pp, used, nextId>>
 
 \* k out-of-support proposals in a row, starting at position m with first fresh id f
 RECURSIVE CopyDown(_, _, _)
@@ -95,9 +111,27 @@ CopyDown(ch, m, k) == IF k = 0 THEN ch ELSE CopyDown([ch EXCEPT ![m] = ch[m - 1]
 RECURSIVE PropIds(_, _, _, _)
 PropIds(pr, m, f, k) == IF k = 0 THEN pr ELSE PropIds([pr EXCEPT ![m] = f], m + 1, f + 1, k - 1)
 
+\* one pass of the _init_round loop for position m, in a robust run: logposterior[m-1] = ll + logprior[m-1]
+Recompute(po, lpr, m) == IF Misspec THEN [po EXCEPT ![m - 1] = lpr[m - 1]] ELSE po
+\* k rejecting passes starting at position m: each recomputes slot m-1, then copies params / logposterior
+\* (and, when CopyLp, logprior) from slot m-1 to slot m
+RECURSIVE RejectLp(_, _, _)
+RejectLp(lpr, m, k) == IF k = 0 THEN lpr
+                       ELSE RejectLp(IF CopyLp THEN [lpr EXCEPT ![m] = lpr[m - 1]] ELSE lpr, m + 1, k - 1)
+RECURSIVE RejectPp(_, _, _, _)
+RejectPp(po, lpr, m, k) ==
+  IF k = 0 THEN po
+  ELSE LET p1 == Recompute(po, lpr, m)
+           l1 == IF CopyLp THEN [lpr EXCEPT ![m] = lpr[m - 1]] ELSE lpr
+       IN RejectPp([p1 EXCEPT ![m] = p1[m - 1]], l1, m + 1, k - 1)
+
 \* the state after _process_simulated at position m decided `acc`, then round += 1 and (maybe) _init_round
 AfterRound(acc, m, k, bad) ==
   LET ch1 == IF acc THEN chain ELSE [chain EXCEPT ![m] = chain[m - 1]]
+      \* _process_simulated: logposterior[m] = loglik + logprior[m]; on rejection all three slots are copied
+      pp0 == [pp EXCEPT ![m] = lp[m]]
+      lp1 == IF acc THEN lp ELSE [lp EXCEPT ![m] = lp[m - 1]]
+      pp1 == IF acc THEN pp0 ELSE [pp0 EXCEPT ![m] = pp0[m - 1]]
       m1 == m + 1
       r1 == round + 1
       enter == r1 < objRound                   \* update(): if state['round'] < objective['round']: _init_round()
@@ -106,8 +140,14 @@ AfterRound(acc, m, k, bad) ==
       ch2 == CopyDown(ch1, m1, kk)
       pr2 == PropIds(prop, m1, nextId, kk)
       idp == nextId + kk
+      lp2 == RejectLp(lp1, m1, kk)
+      pp2 == RejectPp(pp1, lp1, m1, kk)
+      \* the accepting pass: recompute slot m1+kk-1, then logprior[m1+kk] = prior of the proposal
+      pp3 == IF more THEN Recompute(pp2, lp2, m1 + kk) ELSE pp2
   IN /\ chain' = IF more THEN [ch2 EXCEPT ![m1 + kk] = idp] ELSE ch2
      /\ prop' = IF more THEN [pr2 EXCEPT ![m1 + kk] = idp] ELSE pr2
+     /\ lp' = IF more THEN [lp2 EXCEPT ![m1 + kk] = idp] ELSE lp2
+     /\ pp' = pp3
      /\ oos' = oos \cup (nextId..(nextId + kk - 1)) \cup (IF more /\ bad THEN {idp} ELSE {})
      /\ nextId' = IF more THEN idp + 1 ELSE idp
      /\ nS' = m1 + kk
@@ -123,9 +163,11 @@ Consume ==
         /\ simAt' = simAt \cup {h.val}
         /\ IF Len(rs) < NB
            THEN /\ rows' = rs
-                /\ UNCHANGED <<round, objRound, nS, chain, prop, oos, liks, nextId>>
+                /\ UNCHANGED <<round, objRound, nS, chain, prop, oos, liks, lp, pp, used, nextId>>
            ELSE /\ rows' = <<>>
                 /\ liks' = Append(liks, [n |-> nS, rows |-> rs])
+                \* _get_mh_ratio reads logposterior[n-1]
+                /\ used' = IF nS = 0 THEN used ELSE Append(used, [n |-> nS, prior |-> pp[nS - 1], cur |-> chain[nS - 1]])
                 /\ \E acc \in BOOLEAN : \E k \in 0..(N - nS - 1) : \E bad \in BOOLEAN :
                       \* position 0 is always accepted; a proposal outside the support (only simulated
                       \* when TestFirst = FALSE) has posterior 0 and is always rejected
@@ -139,7 +181,7 @@ Consume ==
 Finish ==
   /\ pc = "submit" /\ Finished
   /\ pc' = "done"
-  /\ UNCHANGED <<next, pending, nCons, round, objRound, nS, rows, chain, prop, oos, simAt, liks, nextId>>
+  /\ UNCHANGED <<next, pending, nCons, round, objRound, nS, rows, chain, prop, oos, simAt, liks, lp, pp, used, nextId>>
 
 Next == Submit \/ GoWait \/ Consume \/ Finish
 Spec == Init /\ [][Next]_vars /\ WF_vars(Next)
@@ -157,6 +199,10 @@ ChainLength ==
                  /\ round = objRound /\ Len(liks) = round /\ nCons = round * NB /\ next = nCons
                  /\ round = N - Cardinality({m \in 0..(N - 1) : prop[m] \in oos /\ prop[m] \notin simAt})
                  /\ pending = <<>>
+\* the current side of every MH ratio is the posterior of the current chain state
+PosteriorOfCurrent == \A i \in 1..Len(used) : used[i].prior = used[i].cur
+\* every decided slot stores the log-prior of its own parameters
+StoredPriorOfSlot == \A m \in 0..(N - 1) : m < nS => lp[m] = chain[m]
 \* one likelihood evaluation per simulated position, in chain order
 OneEvalPerPosition == \A i \in 1..Len(liks) : \A j \in 1..Len(liks) : i < j => liks[i].n < liks[j].n
 \* prepare_new_batch never reads past the end of state['params']
